@@ -102,12 +102,35 @@ def run(ctx):
         key = core.canon([c["fn"], c["types"], x["type"], v])
         if key not in seen:
             seen[key] = {"type": x["type"], "value": v, "ctx": {"fn": c["fn"], "argtypes": c["types"], "args": c["args"], "variant": c["variant"]}}
+    # the same law at the level of whole queries: every value of every result column against the type the plan reports for that column
+    # (aggregates over nullable inputs, outer-join padding, projections of subqueries ...)
+    import props.rel as rel
+    nq = 0
+    for fam, n in (("group", 1500 if ctx.tier == "thorough" else 300), ("join", 800 if ctx.tier == "thorough" else 150), ("single", 800 if ctx.tier == "thorough" else 150)):
+        qcases, qres = rel.run_family(ctx, fam, n, "C08", "query")
+        for i, qc in enumerate(qcases):
+            for m in ("o", "n"):
+                x = qres["%d:%s" % (i, m)]
+                if x["stage"] != "":
+                    continue
+                nq += 1
+                for row in x["rows"]:
+                    for (name, typ), v in zip(x["fields"], row["v"]):
+                        key = core.canon(["sql", fam, typ, v.get("t"), v.get("t") == "null"])
+                        if key not in seen:
+                            seen[key] = {"type": typ, "value": v, "ctx": {"fn": "query:" + fam, "sql": qc["sql"], "column": name, "optimize": m == "o", "argtypes": [], "args": [], "variant": "result column"}}
     obs = list(seen.values())
     ctx.write_ndjson("c08_obs.ndjson", obs)
     ctx.tlc_ok("SoundCheck", CFG, workers=1, timeout=3000, heap="14g")
     viol = ctx.read_ndjson("c08_viol.ndjson")
     for v in viol:
         fn = v["ctx"]["fn"]
+        if fn.startswith("query:"):
+            sql = v["ctx"]["sql"].upper()
+            ctx.violation({"site": "result column of a query", "family": fn[6:], "declared": json.dumps(v["type"], sort_keys=True), "value_kind": v["value"].get("t"),
+                           "aggregate": next((a for a in ("SUM(", "AVG(", "MIN(", "MAX(", "COUNT(") if a in sql), "").strip("("), "outer_join": any(k in sql for k in ("LEFT JOIN", "RIGHT JOIN", "OUTER JOIN"))},
+                          v["ctx"], expected="a value admitted by the reported column type %s" % json.dumps(v["type"]), observed=v["value"], note="a result value does not match the type reported for its column")
+            continue
         argk = "+".join((t.get("n") or t.get("k")) if t.get("k") != "union" else "|".join((a.get("n") or a.get("k")) for a in t["a"]) for t in v["ctx"]["argtypes"])
         ctx.violation({"site": "functions." + fn, "declared": json.dumps(v["type"], sort_keys=True), "value_kind": v["value"].get("t"), "argtypes": argk},
                       v["ctx"], expected="a value admitted by the reported type %s" % json.dumps(v["type"]), observed=v["value"],
@@ -118,7 +141,7 @@ def run(ctx):
     if not ctx.read_ndjson("c08_viol.ndjson"):
         raise core.Machinery("negative control not reported")
     ctx.cover(evaluations=n_ok, distinct=len(obs), sample=obs[len(obs) // 2])
-    ctx.notes.update({"function_calls_evaluated": n_ok, "distinct_observations": len(obs), "negative_control_rejected": True})
+    ctx.notes.update({"queries_observed": nq, "function_calls_evaluated": n_ok, "distinct_observations": len(obs), "negative_control_rejected": True})
     ctx.coverage["exhaustive"] = False
     ctx.coverage["rule"] = ("every function overload on the C12/C13 argument catalogues x {exact argument types, nullable argument types, NULL in each position}; an "
                             "observation is (function, static argument types, reported result type, value kind); distinct_nontrivial = distinct observations checked by TLC")
